@@ -39,6 +39,7 @@ type Prog struct {
 	aeStages map[*ssa.Function]*stageInfo
 	aeShared *aeShared
 	aeResults map[string]*aeEcoResult
+	keyFieldCache map[string]map[string]bool
 }
 
 // Eco is one ecosystem package, discovered by shape.
